@@ -218,7 +218,7 @@ def run_suites(pid: str, suites: List[Suite], tag: str) -> Tuple[List[Tuple[Suit
 def check(pid: str, tier: str, seed: int) -> int:
     t0 = time.time()
     mod = importlib.import_module(f"rgv.props.{pid}")
-    coqio.clean_corr() if os.environ.get("RGV_CLEAN", "1") == "1" else None
+    coqio.clean_corr(pid)
     problems: List[Dict[str, Any]] = []     # broken proofs / pins / correspondence (no concrete input yet)
     violations: List[Dict[str, Any]] = []   # concrete failing inputs (unlisted)
     known_lines: List[str] = []
